@@ -115,8 +115,9 @@ type PullApiRecord struct {
 }
 
 type StatRecord struct {
-	Step   int
-	Result ApiResult
+	Step     int
+	SentStep int // the step at which the request was handed to the network
+	Result   ApiResult
 }
 
 const originHostPort = "10.9.9.9:1935"
@@ -537,8 +538,9 @@ func (ar *AdmRun) exec(k *sim.Kernel, op AdmOp) {
 			}
 		}
 	case "stat":
+		sent := k.Step()
 		res := ar.W.Api(fmt.Sprintf("api-stat-%d", k.Step()), "/api/stat/all_group", nil)
-		ar.Stats = append(ar.Stats, StatRecord{Step: k.Step(), Result: res})
+		ar.Stats = append(ar.Stats, StatRecord{Step: k.Step(), SentStep: sent, Result: res})
 	}
 }
 
